@@ -836,12 +836,15 @@ impl World {
             Some(rd) => rd,
             None => return true,
         };
-        let n_imm = rd.messages().len();
-        let n_per = rd.persisted_messages().len();
-        let mut metas = self.take_metas(ni, n_imm + n_per);
+        let n_total = rd.messages().len() + rd.persisted_messages().len();
+        let mut metas = self.take_metas(ni, n_total);
         self.mon.on_ready(ni, &rd, false, &self.nodes, self.op_index);
-        // 1. immediate messages
+        // 1. immediate messages: whatever the consuming accessor hands out is what an application
+        // following the documented loop sends at once
+        let n_view = rd.messages().len();
         let imm = rd.take_messages();
+        self.mon.on_accessors(ni, n_view, imm.len(), self.op_index);
+        let n_imm = imm.len().min(metas.len());
         let hold_f1 = self.options & HOLD_F1 != 0 && !imm.is_empty() && self.f1_shape(ni);
         let imm_metas: Vec<MsgMeta> = metas.drain(..n_imm).collect();
         let mut held: Option<(Vec<Message>, Vec<MsgMeta>)> = None;
@@ -1005,11 +1008,13 @@ impl World {
             Some(rd) => rd,
             None => return true,
         };
-        let n_imm = rd.messages().len();
-        let n_per = rd.persisted_messages().len();
-        let mut metas = self.take_metas(ni, n_imm + n_per);
+        let n_total = rd.messages().len() + rd.persisted_messages().len();
+        let mut metas = self.take_metas(ni, n_total);
         self.mon.on_ready(ni, &rd, true, &self.nodes, self.op_index);
+        let n_view = rd.messages().len();
         let imm = rd.take_messages();
+        self.mon.on_accessors(ni, n_view, imm.len(), self.op_index);
+        let n_imm = imm.len().min(metas.len());
         let imm_metas: Vec<MsgMeta> = metas.drain(..n_imm).collect();
         let hold_f1 = self.options & HOLD_F1 != 0 && !imm.is_empty() && self.f1_shape(ni);
         let mut held_msgs: Vec<(Message, MsgMeta)> = vec![];
